@@ -8,6 +8,7 @@ pub mod c14;
 pub mod c15;
 pub mod c16;
 pub mod c17;
+pub mod c18;
 pub mod c19;
 pub mod c20;
 pub mod single;
@@ -27,6 +28,7 @@ pub fn spec(id: &str) -> Option<PropertySpec> {
         "C15" => c15::spec(),
         "C16" => c16::spec(),
         "C17" => c17::spec(),
+        "C18" => c18::spec(),
         "C19" => c19::spec(),
         "C20" => c20::spec(),
         _ => return None,
